@@ -27,7 +27,7 @@ ASSUMPTIONS = [
     'the leak clause recognises owner-bound watchers structurally (functools.partial with a function= keyword bound to the '
     'owner); unrecognisable callbacks are counted, not judged',
 ]
-REQUIRED = {'ops_judged': 3000, 'replacements': 1000, 'leaf_sets': 1000, 'detached_leaf_sets': 200, 'leak_checks': 2000}
+REQUIRED = {'ops_judged': 3000, 'replacements': 1000, 'leaf_sets': 1000, 'detached_leaf_sets': 200, 'leak_checks': 2000, 'slot_sets': 300}
 
 _st = {}
 _n = [0]
@@ -38,13 +38,13 @@ def setup(P):
     _st['param'] = param
 
     class Node(param.Parameterized):
-        x = param.Number(default=0.0)
-        y = param.Number(default=0.0)
+        x = param.Number(default=0.0, bounds=(-1e9, 1e9))
+        y = param.Number(default=0.0, bounds=(-1e9, 1e9))
         b = param.Parameter(default=None)
 
     class Leaf(param.Parameterized):
-        x = param.Number(default=0.0)
-        y = param.Number(default=0.0)
+        x = param.Number(default=0.0, bounds=(-1e9, 1e9))
+        y = param.Number(default=0.0, bounds=(-1e9, 1e9))
 
     _st['Node'] = Node
     _st['Leaf'] = Leaf
@@ -55,7 +55,7 @@ def val():
     return float(_n[0])
 
 
-PATHS = ['a.x', 'a.y', 'a.b.x', 'a.b.y', 'a.b.b.x', 'c.x', 'c.y', 'c.param', 'a.x', 'a.b.x']
+PATHS = ['a.x', 'a.y', 'a.b.x', 'a.b.y', 'a.b.b.x', 'c.x', 'c.y', 'c.param', 'a.x', 'a.b.x', 'a.x:bounds', 'c.y:bounds', 'a.b.x:bounds']
 
 
 def run_case(idx, rng, P, rep):
@@ -124,6 +124,11 @@ def run_case(idx, rng, P, rep):
             if o is None or not isinstance(o, param.Parameterized):
                 return UNRES
         leaf = parts[-1]
+        if ':' in leaf:
+            leaf, slot = leaf.split(':')
+            if leaf not in o.param:
+                return UNRES
+            return getattr(o.param[leaf], slot)
         if leaf == 'param':
             return tuple((pn, getattr(o, pn)) for pn in sorted(o.param))
         if leaf not in o.param:
@@ -196,6 +201,13 @@ def run_case(idx, rng, P, rep):
                     differ = {'equal': (), 'differ-x': ('x',), 'differ-y': ('y',), 'differ-b.x': ('b.x',)}[how]
                     d_old = 1 + (isinstance(old.b, Node)) + (isinstance(getattr(old.b, 'b', None), Node))
                     new = new_node(d_old, old, differ)
+            if rng.random() < 0.3:
+                # the new object's parameters may also differ in their attributes (bounds)
+                tgt = new
+                if rng.random() < 0.4 and isinstance(getattr(new, 'b', None), Node):
+                    tgt = new.b
+                tgt.param[rng.choice(['x', 'y'])].bounds = rng.choice([(-2e9, 2e9), (-3e9, 3e9)])
+                how += '+bounds'
             kind = f'replace:{prefix}:{how}'
             trace.append((kind,))
             setattr(holder, attr, new)
@@ -226,6 +238,18 @@ def run_case(idx, rng, P, rep):
             if old is not None and old is not objd:
                 detached_pool.append((prefix, old))
             stats['repl'] += 1
+        elif c < 0.5:
+            # Parameter-attribute assignment on an attached object
+            cands = [o for o in reachable()]
+            if not cands:
+                continue
+            o = rng.choice(cands)
+            pn = rng.choice(['x', 'y'])
+            nb = rng.choice([(-1e9, 1e9), (-2e9, 2e9), (-3e9, 3e9)])
+            kind = f'slot:{pn}'
+            trace.append((kind, type(o).__name__, nb))
+            o.param[pn].bounds = nb
+            rep.count('slot_sets')
         elif c < 0.8:
             # leaf assignment on an attached object
             cands = [o for o in reachable()]
